@@ -98,3 +98,122 @@ package minruntime
 //@     decreases ite(currentQueue == nil, 0, rank(currentQueue) + 1)
 //@   ensures [ancestorChain] isPath(r, result, queue)
 //@ end
+
+// Resolved reclaim min-runtime when walking up from queue q: the setting of the nearest
+// ancestor-or-self that has one, else the plugin default (ghost, defined by `assume` like preemptMR).
+//@ declare reclaimMR(r *resolver, q *queue_info.QueueInfo) int
+//@ define reclaimMRdef(r *resolver) bool = reclaimMR(r, nil) == r.defaultReclaimMinRuntime.Duration && (forall q *queue_info.QueueInfo :: q != nil ==> reclaimMR(r, q) == ite(q.ReclaimMinRuntime != nil, q.ReclaimMinRuntime.Duration, reclaimMR(r, parentOf(r, q))))
+
+// "queue" resolution: walk up from the victim's (preemptee's) queue.
+//@ func (*resolver).resolveReclaimMinRuntimeQueue
+//@   props C06
+//@   requires r != nil && preemptorQueue != nil && preempteeQueue != nil && acyclic(r)
+//@   assume reclaimMRdef(r)
+//@   modifies family(r.reclaimMinRuntimeCache[*]), family(r.reclaimMinRuntimeCache[""][*])
+//@   loop 1
+//@     invariant reclaimMR(r, currentQueue) == reclaimMR(r, preempteeQueue)
+//@     decreases ite(currentQueue == nil, 0, rank(currentQueue) + 1)
+//@   ensures [nearestAncestorElseDefault] result0.Duration == reclaimMR(r, preempteeQueue)
+//@   ensures result1 == nil
+//@ end
+
+// "lca" resolution (resolver.go doc comment): find the lowest common ancestor of the two queues
+// (top-level queues are siblings under an implicit root), step one level down towards the victim's
+// queue (or stay on it), and from there use the nearest ancestor-or-self setting, else the default.
+// commonUpTo(P, V, L): the two top-down paths agree (by UID) on indices 0..L
+//@ define commonUpTo(p []*queue_info.QueueInfo, v []*queue_info.QueueInfo, l int) bool = forall j int :: 0 <= j && j <= l ==> p[j].UID == v[j].UID
+//@ define minLen(p []*queue_info.QueueInfo, v []*queue_info.QueueInfo) int = ite(len(p) < len(v), len(p), len(v))
+
+// The four property clauses mention the function's own locals (the two paths, the start index), so they
+// are `lemma`s (proved at exit, not exported to callers).
+//@ func (*resolver).resolveReclaimMinRuntimeLCA
+//@   props C06
+//@   requires r != nil && preemptorQueue != nil && preempteeQueue != nil && acyclic(r)
+//@   assume reclaimMRdef(r)
+//@   modifies family(r.reclaimMinRuntimeCache[*]), family(r.reclaimMinRuntimeCache[""][*])
+//@   loop 1
+//@     invariant 0 <= i && i <= minLength && 0 <= lcaIndex && lcaIndex < minLength
+//@     invariant lcaIndex == ite(i == 0, 0, i - 1)
+//@     invariant commonUpTo(preemptorPath, preempteePath, lcaIndex)
+//@     decreases minLength - i
+//@   loop 2
+//@     invariant 0 - 1 <= i && i < len(preempteePath)
+//@     invariant duration.Duration == r.defaultReclaimMinRuntime.Duration
+//@     invariant reclaimMR(r, ite(i >= 0, preempteePath[i], nil)) == reclaimMR(r, preempteePath[lcaIndex])
+//@     decreases i + 1
+//@   lemma [pathsAreAncestorChains] isPath(r, preemptorPath, preemptorQueue) && isPath(r, preempteePath, preempteeQueue)
+//@   lemma [differentTopLevel] preemptorPath[0].UID != preempteePath[0].UID ==> result0.Duration == ite(preempteePath[0].ReclaimMinRuntime != nil, preempteePath[0].ReclaimMinRuntime.Duration, r.defaultReclaimMinRuntime.Duration)
+//@   lemma [startBelowLCA] preemptorPath[0].UID == preempteePath[0].UID ==> (exists l int :: 0 <= l && l < minLen(preemptorPath, preempteePath) && commonUpTo(preemptorPath, preempteePath, l) && (l + 1 < minLen(preemptorPath, preempteePath) ==> preemptorPath[l + 1].UID != preempteePath[l + 1].UID) && lcaIndex == ite(l + 1 < len(preempteePath), l + 1, l))
+//@   lemma [walkUpFromStart] preemptorPath[0].UID == preempteePath[0].UID ==> 0 <= lcaIndex && lcaIndex < len(preempteePath) && result0.Duration == reclaimMR(r, preempteePath[lcaIndex])
+//@   ensures result1 == nil
+//@ end
+
+// Cache hit path: map with struct values (over-approximated by the engine) - functional post for the miss path.
+//@ func (*resolver).getReclaimMinRuntime
+//@   props C06
+//@   requires r != nil && acyclic(r)
+//@   assume reclaimMRdef(r)
+//@   modifies family(r.reclaimMinRuntimeCache[*]), family(r.reclaimMinRuntimeCache[""][*])
+//@   ensures [nilQueueDefault] (preemptorQueue == nil || preempteeQueue == nil) ==> result0.Duration == r.defaultReclaimMinRuntime.Duration && result1 != nil
+//@   ensures [queueMethodResolved] preemptorQueue != nil && preempteeQueue != nil && resolveMethod != "lca" && !old(preempteeQueue.UID in r.reclaimMinRuntimeCache[preemptorQueue.UID]) ==> result0.Duration == reclaimMR(r, preempteeQueue)
+//@   ensures preemptorQueue != nil && preempteeQueue != nil ==> result1 == nil
+//@ end
+
+// ---- minruntime.go: protection predicates ---------------------------------------------------------------
+// C06: "never evict pods ... of workloads still inside the minimum runtime configured for their queue":
+// a victim is protected iff it has a start time and now < lastStart + resolved min-runtime.
+// now() = the value of the function's (single) time.Now() call. Stated for the cache-miss path; on a hit
+// the cached verdict (computed by this same code earlier in the session) is returned.
+//@ define started(v *podgroup_info.PodGroupInfo) bool = v.LastStartTimestamp != nil && *v.LastStartTimestamp != 0
+//@ define pluginOK(mr *minruntimePlugin) bool = mr != nil && mr.resolver != nil && acyclic(mr.resolver) && mr.preemptProtectionCache != nil && mr.reclaimProtectionCache != nil
+
+//@ func (*minruntimePlugin).isPreemptMinRuntimeProtected
+//@   props C06
+//@   requires pluginOK(mr) && victim != nil
+//@   assume preemptMRdef(mr.resolver)
+//@   modifies mr.preemptProtectionCache[victim.UID], mr.resolver.preemptMinRuntimeCache[*]
+//@   ensures [cacheHit] old(victim.UID in mr.preemptProtectionCache) ==> result == old(mr.preemptProtectionCache[victim.UID])
+//@   ensures [neverStartedNotProtected] !old(victim.UID in mr.preemptProtectionCache) && !started(victim) ==> !result
+//@   ensures [protectedWhileInsideMinRuntime] !old(victim.UID in mr.preemptProtectionCache) && started(victim) && mr.queues[victim.Queue] != nil && !old(mr.queues[victim.Queue].UID in mr.resolver.preemptMinRuntimeCache) ==> result == (now() < *victim.LastStartTimestamp + preemptMR(mr.resolver, mr.queues[victim.Queue]))
+//@   ensures [unknownQueueUsesDefault] !old(victim.UID in mr.preemptProtectionCache) && started(victim) && mr.queues[victim.Queue] == nil ==> result == (now() < *victim.LastStartTimestamp + mr.defaultPreemptMinRuntime.Duration)
+//@   ensures [verdictCached] !old(victim.UID in mr.preemptProtectionCache) && started(victim) ==> victim.UID in mr.preemptProtectionCache && mr.preemptProtectionCache[victim.UID] == result
+//@ end
+
+//@ define reclaimCached(mr *minruntimePlugin, p *podgroup_info.PodGroupInfo, v *podgroup_info.PodGroupInfo) bool = v.UID in mr.reclaimProtectionCache[p.UID]
+
+//@ func (*minruntimePlugin).isReclaimMinRuntimeProtected
+//@   props C06
+//@   requires pluginOK(mr) && victim != nil && pendingJob != nil
+//@   assume reclaimMRdef(mr.resolver)
+//@   modifies family(mr.reclaimProtectionCache[*]), family(mr.reclaimProtectionCache[""][*]), family(mr.resolver.reclaimMinRuntimeCache[*]), family(mr.resolver.reclaimMinRuntimeCache[""][*])
+//@   ensures [cacheHit] old(reclaimCached(mr, pendingJob, victim)) ==> result == old(mr.reclaimProtectionCache[pendingJob.UID][victim.UID])
+//@   ensures [neverStartedNotProtected] !old(reclaimCached(mr, pendingJob, victim)) && !started(victim) ==> !result
+//@   ensures [protectedWhileInsideMinRuntime] !old(reclaimCached(mr, pendingJob, victim)) && started(victim) && mr.reclaimResolveMethod != "lca" && mr.queues[victim.Queue] != nil && mr.queues[pendingJob.Queue] != nil && !old(mr.queues[victim.Queue].UID in mr.resolver.reclaimMinRuntimeCache[mr.queues[pendingJob.Queue].UID]) ==> result == (now() < *victim.LastStartTimestamp + reclaimMR(mr.resolver, mr.queues[victim.Queue]))
+//@   ensures [unknownQueueUsesDefault] !old(reclaimCached(mr, pendingJob, victim)) && started(victim) && (mr.queues[victim.Queue] == nil || mr.queues[pendingJob.Queue] == nil) ==> result == (now() < *victim.LastStartTimestamp + mr.defaultReclaimMinRuntime.Duration)
+//@ end
+
+// C06: non-elastic victims inside their min-runtime are filtered out; elastic victims are always
+// let through here and checked by the scenario validators ("elastic workloads only down to their minimum size").
+//@ define elastic(v *podgroup_info.PodGroupInfo) bool = exists k in v.PodSets :: v.PodSets[k].minAvailable < len(v.PodSets[k].podInfos)
+
+//@ func (*minruntimePlugin).preemptFilterFn
+//@   props C06
+//@   requires pluginOK(mr) && podgroup_info.setsOK(victim)
+//@   assume preemptMRdef(mr.resolver)
+//@   modifies mr.preemptProtectionCache[victim.UID], mr.resolver.preemptMinRuntimeCache[*]
+//@   ensures [elasticAlwaysPasses] elastic(victim) ==> result
+//@   ensures [nonElasticNeverStartedPasses] !elastic(victim) && !old(victim.UID in mr.preemptProtectionCache) && !started(victim) ==> result
+//@   ensures [nonElasticAcceptedOnlyAfterMinRuntime] !elastic(victim) && !old(victim.UID in mr.preemptProtectionCache) && started(victim) && mr.queues[victim.Queue] != nil && !old(mr.queues[victim.Queue].UID in mr.resolver.preemptMinRuntimeCache) ==> result == (now() >= *victim.LastStartTimestamp + preemptMR(mr.resolver, mr.queues[victim.Queue]))
+//@   ensures [cachedVerdict] !elastic(victim) && old(victim.UID in mr.preemptProtectionCache) ==> result == !old(mr.preemptProtectionCache[victim.UID])
+//@ end
+
+//@ func (*minruntimePlugin).reclaimFilterFn
+//@   props C06
+//@   requires pluginOK(mr) && podgroup_info.setsOK(victim) && pendingJob != nil
+//@   assume reclaimMRdef(mr.resolver)
+//@   modifies family(mr.reclaimProtectionCache[*]), family(mr.reclaimProtectionCache[""][*]), family(mr.resolver.reclaimMinRuntimeCache[*]), family(mr.resolver.reclaimMinRuntimeCache[""][*])
+//@   ensures [elasticAlwaysPasses] elastic(victim) ==> result
+//@   ensures [nonElasticNeverStartedPasses] !elastic(victim) && !old(reclaimCached(mr, pendingJob, victim)) && !started(victim) ==> result
+//@   ensures [nonElasticAcceptedOnlyAfterMinRuntime] !elastic(victim) && !old(reclaimCached(mr, pendingJob, victim)) && started(victim) && mr.reclaimResolveMethod != "lca" && mr.queues[victim.Queue] != nil && mr.queues[pendingJob.Queue] != nil && !old(mr.queues[victim.Queue].UID in mr.resolver.reclaimMinRuntimeCache[mr.queues[pendingJob.Queue].UID]) ==> result == (now() >= *victim.LastStartTimestamp + reclaimMR(mr.resolver, mr.queues[victim.Queue]))
+//@   ensures [cachedVerdict] !elastic(victim) && old(reclaimCached(mr, pendingJob, victim)) ==> result == !old(mr.reclaimProtectionCache[pendingJob.UID][victim.UID])
+//@ end
